@@ -1379,6 +1379,8 @@ class DelegatedCredentialCertExtension(TLSExtension):
     def parse(self, p):
         """Deserialise the data from on the wire representation."""
         self.delegated_credential = DelegatedCredential().parse(p)
+        if p.getRemainingLength():
+            raise DecodeError("Extra data after extension payload")
         return self
 
     @property
